@@ -1031,3 +1031,93 @@ func guardedOffRecovery(p *Prog, fn *ssa.Function, s Site) bool {
 	}
 	return ok
 }
+
+// R-apply-before-rotate: within one logged operation the memstore mutation precedes any rotation, so the record and
+// its effect belong to the same WAL segment / memstore generation.
+func ruleApplyBeforeRotate(r *Report) {
+	const rule = "apply-before-rotate"
+	r.Rule(rule, 1, "in a function that logs a mutation and may rotate the WAL/memstore, no rotation is reachable between the successful WAL append and the memstore mutation (otherwise the record sits in the old segment, which the flusher deletes, while its effect lives only in the new memstore)")
+	p := r.P
+	n := 0
+	for _, fn := range loggingFuncs(p) {
+		rot := CallsIn(fn, Keys("simpledb.DB.rotateWalAndFlushMemstore"))
+		if len(rot) == 0 {
+			continue
+		}
+		n++
+		r.Saw(fn)
+		muts := CallsIn(fn, memMutate)
+		key := rule + "/" + FuncKey(fn)
+		bad := false
+		for _, a := range CallsIn(fn, walAnyAppend) {
+			succ, _ := errorEdges(a)
+			removed := map[Edge]bool{}
+			for _, m := range muts {
+				for _, su := range m.Block.Succs {
+					removed[Edge{m.Block, su}] = true
+				}
+			}
+			for _, e := range succ {
+				reach := reachFrom(e.To, removed)
+				for _, ro := range rot {
+					after := false
+					for _, m := range muts {
+						if m.Block == ro.Block && m.Idx < ro.Idx {
+							after = true
+						}
+					}
+					if reach[ro.Block] && !after {
+						bad = true
+					}
+				}
+			}
+		}
+		if bad {
+			r.Bad(rule, key, rot[0].Pos(), "the rotation can run after the WAL append but before the memstore mutation: the acknowledged write's log record is deleted with the old segment while its effect exists only in memory")
+		} else {
+			r.OK(rule, key, rot[0].Pos(), "rotation only after the mutation was applied")
+		}
+	}
+	if n == 0 {
+		r.Missing(rule, rule+"/sites", "no logging function rotates the WAL")
+	}
+}
+
+// R-finish-only-verified-flag: recovery rolls a compaction forward only when its flag file was read successfully.
+func ruleFinishOnlyVerified(r *Report) {
+	const rule = "finish-only-verified-flag"
+	r.Rule(rule, 1, "recovery queues a compaction for roll-forward (which deletes the inputs) only on the success edge of reading the metadata record from its flag file")
+	p := r.P
+	found := false
+	for _, fn := range p.FuncsOfPkg("simpledb") {
+		if !strings.HasPrefix(FuncKey(fn), "simpledb.DB.repairCompactions") {
+			continue
+		}
+		rd := CallsIn(fn, Suffix("ReaderI.ReadNext"))
+		if len(rd) == 0 {
+			continue
+		}
+		found = true
+		r.Saw(fn)
+		// stores that grow the roll-forward list: Store(cell, append(load cell, x)) where x is a *CompactionMetadata
+		var grows []Site
+		eachInstr(fn, func(s Site) {
+			st, ok := s.Instr.(*ssa.Store)
+			if !ok || !isCell(st.Addr) {
+				return
+			}
+			if c, ok := st.Val.(*ssa.Call); ok && CalleeKey(c) == "builtin.append" {
+				if sl, ok := c.Type().Underlying().(*types.Slice); ok && strings.HasSuffix(typeShort(sl.Elem()), "CompactionMetadata") {
+					grows = append(grows, s)
+				}
+			}
+		})
+		o := &order{r, p}
+		o.OnlyAfterSuccess(rule, rule+"/"+FuncKey(fn), fn, "reading the flag record", rd, "queueing the compaction for roll-forward", grows, nil)
+		o2 := CallsIn(fn, Suffix("OpenableI.Open", "ReaderI.Open"))
+		o.OnlyAfterSuccess(rule, rule+"/"+FuncKey(fn)+"/after-open", fn, "opening the flag file", o2, "queueing the compaction for roll-forward", grows, nil)
+	}
+	if !found {
+		r.Missing(rule, rule+"/repairCompactions", "flag read not found in repairCompactions")
+	}
+}
